@@ -49,7 +49,7 @@ def pcOK (G w h : Nat) : WPc → Prop
 
 def holderOK (G : Nat) (m : MPc) (w : Nat) : Option (Nat × WPc) → Prop
   | some (h, p) => h < spawned G m ∧ mainFree m ∧ pcOK G w h p
-  | none => (spawned G m = 0 ∧ w = 0) ∨ (m = .exited ∧ w = G) ∨ (∃ k, m = .hold k ∧ k + 1 = w ∧ w < G)
+  | none => (m = .run 0 ∧ w = 0) ∨ (m = .exited ∧ w = G) ∨ (∃ k, m = .hold k ∧ k + 1 = w ∧ w < G)
 
 structure InvP (G : Nat) (s : State) (w : Nat) (hd : Option (Nat × WPc)) : Prop where
   wle : w ≤ G
@@ -226,7 +226,7 @@ theorem invP_spawn {G : Nat} {s s' : State} {g w : Nat} {hd : Option (Nat × WPc
       cases hd with
       | none =>
         rcases hok with ⟨h1, _⟩ | ⟨h1, _⟩ | ⟨k, h1, _⟩
-        · rw [hsp] at h1; omega
+        · rw [hm] at h1; cases h1; exact absurd rfl h0
         · rw [hm] at h1; cases h1
         · rw [hm] at h1; cases h1
       | some hp =>
@@ -304,7 +304,7 @@ theorem invP_links {G : Nat} {s s' : State} {g w : Nat} {hd : Option (Nat × WPc
       cases hd with
       | none =>
         rcases hok with ⟨h1, _⟩ | ⟨h1, _⟩ | ⟨k, h1, _⟩
-        · rw [hsp] at h1; omega
+        · rw [hm] at h1; cases h1
         · rw [hm] at h1; cases h1
         · rw [hm] at h1; cases h1
       | some hp =>
@@ -489,7 +489,7 @@ theorem inv_recv {G : Nat} {s s' : State} {r k : Nat} {c : Sender} (hI : Inv G s
             have hsp : spawned G s.mpc = G := by rw [hm]; rfl
             have hap : applied G s.mpc = G := by rw [hm]; rfl
             rcases hok with ⟨h1, _⟩ | ⟨h1, _⟩ | ⟨k', h1, h2, h3⟩
-            · rw [hsp] at h1; omega
+            · rw [hm] at h1; cases h1
             · rw [hm] at h1; cases h1
             · rw [hm] at h1; cases h1
               have hw := I.wpc r
@@ -651,14 +651,12 @@ theorem exited_terminal {G : Nat} {s : State} (hI : Inv G s) (hm : s.mpc = .exit
   | none =>
     rcases hok with ⟨h1, h2⟩ | ⟨_, h2⟩ | ⟨k, h1, _⟩
     · -- G = 0
-      rw [hsp] at h1; subst h1
-      simp [terminal, hm]
+      rw [hm] at h1; cases h1
     · subst h2
       simp only [terminal, hm, decide_true, Bool.true_and, List.all_eq_true, List.mem_range]
       intro g hg
       rw [I.wpc g, I.writes g, I.links g, hsp, hap]
       simp [expected, hg]
-      omega
     · rw [hm] at h1; cases h1
 
 /-- progress measure: remaining main-loop steps + 10 per unwritten generation + stage of the baton -/
@@ -691,7 +689,7 @@ theorem invP_recv_main {G : Nat} {s : State} {w r k : Nat} (I : InvP G s w none)
   rw [hsp] at r1
   have hk : k + 1 = w := by
     rcases I.hok with ⟨h1, _⟩ | ⟨h1, _⟩ | ⟨k', h1, h2, _⟩
-    · rw [hsp] at h1; omega
+    · rw [hm] at h1; cases h1
     · rw [hm] at h1; cases h1
     · rw [hm] at h1; cases h1; exact h2
   refine ⟨I.wle, trivial, I.writes, ?_, ?_, ?_, ⟨r1, mainFree_final, ⟨hk, r2⟩⟩⟩
@@ -703,6 +701,73 @@ theorem invP_recv_main {G : Nat} {s : State} {w r k : Nat} (I : InvP G s w none)
     · subst e; simp only [upd, if_true]; exact (expected_self r1).symm
     · simp only [upd, e, if_false]
       rw [I.wpc g', hsp, expected_off e]
+
+/-- progress when a writer holds the baton and the main goroutine is in its final wait loop -/
+theorem progress_holder {G : Nat} {s : State} {w h : Nat} {p : WPc} (I : InvP G s w (some (h, p)))
+    (hm : s.mpc = .final) :
+    ∃ l s' w' hd', step G s l = some s' ∧ InvP G s' w' hd' ∧ rank G s'.mpc w' hd' < rank G s.mpc w (some (h, p)) := by
+  have hsp : spawned G s.mpc = G := by rw [hm]; rfl
+  obtain ⟨h1, h2, h3⟩ := I.hok
+  rw [hsp] at h1
+  have hself : s.wpc h = p := by rw [I.wpc h, hsp]; exact expected_self h1
+  have hwle := I.wle
+  cases p with
+  | notSpawned => exact h3.elim
+  | waiting => exact h3.elim
+  | done => exact h3.elim
+  | ready =>
+    have hst : step G s (.wstart h) = some { s with wpc := upd s.wpc h .writing } := by simp [step, h1, hself]
+    exact ⟨_, _, _, _, hst, inv_local I (p' := .writing) h3, by simp [rank, stage]⟩
+  | writing =>
+    have hst : step G s (.wdone h) = some { s with wpc := upd s.wpc h .wrote, writes := upd s.writes h (s.writes h + 1) } := by
+      simp [step, h1, hself]
+    obtain ⟨_, _, J, hm'⟩ := invP_wdone I hst
+    refine ⟨_, _, _, _, hst, J, ?_⟩
+    obtain ⟨e, hwG⟩ := h3
+    rw [hm']
+    simp [rank, stage]; omega
+  | wrote =>
+    have hst : step G s (.sent h) = some { s with wpc := upd s.wpc h .sending } := by simp [step, h1, hself]
+    exact ⟨_, _, _, _, hst, inv_local I (p' := .sending) h3, by simp [rank, stage]⟩
+  | bounce k =>
+    have hst : step G s (.resent h k) = some { s with wpc := upd s.wpc h (.resend k) } := by simp [step, h1, hself]
+    exact ⟨_, _, _, _, hst, inv_local I (p' := .resend k) h3, by simp [rank, stage]⟩
+  | got k =>
+    have hst : step G s (.purge h k) = some { s with purges := upd s.purges k (s.purges k + 1), wpc := upd s.wpc h (if k + 1 = h then .ready else .bounce k) } := by
+      simp [step, h1, hself]
+    obtain ⟨_, J, hm'⟩ := invP_purge I hst
+    refine ⟨_, _, _, _, hst, J, ?_⟩
+    obtain ⟨e, hwh⟩ := h3
+    rw [hm']
+    by_cases e2 : k + 1 = h
+    · have : h = w := by omega
+      simp [rank, stage, e2, this]
+    · have : ¬ h = w := by omega
+      simp [rank, stage, e2, this]
+  | sending =>
+    have hk : h + 1 = w := h3
+    by_cases hwG : w < G
+    · have hr : s.wpc w = .waiting := by
+        rw [I.wpc w, hsp]; exact expected_at_w hwG (fun h' p' e => by cases e; omega)
+      have hst : step G s (.recv w h .own) = some { s with wpc := upd (upd s.wpc h .done) w (.got h) } := by
+        simp [step, takeFrom, h1, hself, hwG, hr]
+      have J := inv_handover I hr hk (expected_none_done (by rw [hsp]; exact h1) (by omega))
+      exact ⟨_, _, _, _, hst, J, by simp [rank, stage]⟩
+    · have hst : step G s (.mrecv h .own) = some { s with wpc := upd s.wpc h .done, mpc := if h + 1 = G then .exited else .hold h } := by
+        simp [step, takeFrom, h1, hself, hm]
+      have J := inv_main_take I hm hk (expected_none_done h1 (by omega))
+      refine ⟨_, _, _, _, hst, J, ?_⟩
+      have : h + 1 = G := by omega
+      simp [rank, stage, mainRem, this, hm]
+  | resend k =>
+    obtain ⟨hk, hwh⟩ := h3
+    have hwG : w < G := by omega
+    have hr : s.wpc w = .waiting := by
+      rw [I.wpc w, hsp]; exact expected_at_w hwG (fun h' p' e => by cases e; omega)
+    have hst : step G s (.recv w k (.bouncer h)) = some { s with wpc := upd (upd s.wpc h .waiting) w (.got k) } := by
+      simp [step, takeFrom, h1, hself, hwG, hr]
+    have J := inv_handover I hr hk (expected_none_waiting (by rw [hsp]; exact h1) (by omega))
+    exact ⟨_, _, _, _, hst, J, by simp [rank, stage]⟩
 
 /-- **progress**: from every state that satisfies the invariant and in which the main goroutine has not exited, some
 transition is enabled that preserves the invariant and strictly decreases the measure -/
@@ -728,7 +793,7 @@ theorem progress {G : Nat} {s : State} {w : Nat} {hd : Option (Nat × WPc)} (I :
       have : hd = none := by
         cases hd with
         | none => rfl
-        | some hp => have := I.hok.1; rw [hm] at this; simp [spawned] at this
+        | some hp => obtain ⟨h', p'⟩ := hp; have := I.hok.1; rw [hm] at this; simp [spawned] at this
       subst this
       simp [rank, mainRem, stage]; omega
     · simp [rank, mainRem, h0]; omega
@@ -748,12 +813,13 @@ theorem progress {G : Nat} {s : State} {w : Nat} {hd : Option (Nat × WPc)} (I :
     cases hd with
     | none =>
       rcases I.hok with ⟨h1, _⟩ | ⟨h1, _⟩ | ⟨k, h1, _⟩
-      · rw [hsp] at h1; have := I.mok; omega
+      · rw [hm] at h1; cases h1
       · rw [hm] at h1; cases h1
       · rw [hm] at h1; cases h1
     | some hp =>
       obtain ⟨h, p⟩ := hp
-      exact progress_holder I hm (Or.inl rfl)
+      have := progress_holder I hm
+      rw [hm] at this; exact this
   | hold k =>
     have hsp : spawned G s.mpc = G := by rw [hm]; rfl
     cases hd with
@@ -761,7 +827,7 @@ theorem progress {G : Nat} {s : State} {w : Nat} {hd : Option (Nat × WPc)} (I :
     | none =>
       have hkw : k + 1 = w ∧ w < G := by
         rcases I.hok with ⟨h1, _⟩ | ⟨h1, _⟩ | ⟨k', h1, h2, h3⟩
-        · rw [hsp] at h1; omega
+        · rw [hm] at h1; cases h1
         · rw [hm] at h1; cases h1
         · rw [hm] at h1; cases h1; exact ⟨h2, h3⟩
       have hr : s.wpc w = .waiting := by
@@ -770,6 +836,24 @@ theorem progress {G : Nat} {s : State} {w : Nat} {hd : Option (Nat × WPc)} (I :
         simp [step, takeFrom, hm, hkw.2, hr]
       have J := invP_recv_main I hm hr
       refine ⟨_, _, _, _, hst, J, ?_⟩
-      simp [rank, mainRem, stage, hm]
+      simp [rank, mainRem, stage]
+
+theorem reach_exit {G : Nat} : ∀ (n : Nat) (s : State) (w : Nat) (hd : Option (Nat × WPc)), InvP G s w hd →
+    rank G s.mpc w hd ≤ n → ∃ s', Reach G s s' ∧ s'.mpc = .exited := by
+  intro n
+  induction n with
+  | zero =>
+    intro s w hd I hr
+    by_cases hm : s.mpc = .exited
+    · exact ⟨s, Reach.refl s, hm⟩
+    · obtain ⟨l, s', w', hd', _, _, hlt⟩ := progress I hm
+      omega
+  | succ n ih =>
+    intro s w hd I hr
+    by_cases hm : s.mpc = .exited
+    · exact ⟨s, Reach.refl s, hm⟩
+    · obtain ⟨l, s', w', hd', hst, J, hlt⟩ := progress I hm
+      obtain ⟨s'', hre, he⟩ := ih s' w' hd' J (by omega)
+      exact ⟨s'', Reach.step hst hre, he⟩
 
 end OW.Sim.Writer
